@@ -32,11 +32,13 @@ typedef VoxelsOnCartesianGrid<float> Vox;
 typedef GeneralisedPrior<Img> Prior;
 typedef std::vector<double> Vec;
 
+//! finding Fn (work/notes/C09_findings.md) is excluded unless VERIF_NO_EXCLUDE=1 (all) or VERIF_C09_INCLUDE contains the digit n
 bool
-no_exclude()
+excl(int n)
 {
-  static const bool v = std::getenv("VERIF_NO_EXCLUDE") != nullptr && std::string(std::getenv("VERIF_NO_EXCLUDE")) != "0";
-  return v;
+  static const bool all = std::getenv("VERIF_NO_EXCLUDE") != nullptr && std::string(std::getenv("VERIF_NO_EXCLUDE")) != "0";
+  static const std::string some = std::getenv("VERIF_C09_INCLUDE") ? std::getenv("VERIF_C09_INCLUDE") : "";
+  return !all && some.find(char('0' + n)) == std::string::npos;
 }
 
 // ---- tolerances (relative to the magnitude = sum of absolute values of the terms of the compared quantity) -------------
@@ -740,4 +742,727 @@ border_is_zero(const std::string& what, const Padded& p, const Vec& big)
     if (!p.interior[i] && big[i] != 0.)
       return cat(what, ": voxel ", i, " of the kappa=0 border has the non-zero value ", big[i]);
   return "";
+}
+
+// =======================================================================================================================
+Result
+check_pairwise(const Cfg& k)
+{
+  const Grid& g = k.g;
+  const int N = g.N();
+  const Vec x = make_image(k);
+  const Vec kap = make_kappa(k, g);
+  const Weights w = weights_of(k, g);
+  const Weights* user_w = k.wmode == 2 ? &w : nullptr;
+  const shared_ptr<Vox> xim = to_vox(g, x);
+  const shared_ptr<Vox> kim = kap.empty() ? shared_ptr<Vox>() : to_vox(g, kap);
+  const Spec spec = spec_of(k, user_w, kim, shared_ptr<Vox>());
+  Made m;
+  try
+    {
+      m = make_prior(spec, xim);
+    }
+  catch (const std::exception& e)
+    {
+      return Result::reject(std::string("prior construction/set_up rejected: ") + e.what());
+    }
+  Prior& P = *m.p;
+  const std::string kn = kind_name(k.kind);
+
+  PairRef<double> ref;
+  ref.g = g;
+  ref.w = w;
+  ref.kap = kap;
+  ref.pot.kind = k.kind;
+  ref.pot.gamma = double(k.gamma);
+  ref.pot.eps = double(k.eps);
+  ref.pot.s = double(k.scalar);
+  ref.beta = double(k.beta);
+
+  // ---- reference quantities and the anchor ---------------------------------------------------------------------------
+  double vmag = 0, vfloor = 0;
+  const double vref = ref.value(x, &vmag, &vfloor);
+  Vec gref, gmag, hvref, hvmag;
+  ref.gradient(x, gref, &gmag);
+  const Vec v = make_direction(k.dseed, std::size_t(N), 1.);
+  ref.hess_times(x, v, hvref, &hvmag);
+  {
+    const double len = char_length(k, x);
+    const Vec d = make_direction(k.dseed ^ 0x5bd1e995u, std::size_t(N), 1.);
+    C09_TRY(anchor_gradient(ref, x, gref, gmag, d, len));
+    C09_TRY(anchor_hessian(ref, x, hvref, hvmag, v, len, g));
+  }
+
+  VF_CHECK(P.is_convex(), kn, " does not declare itself convex");
+
+  // ---- value ------------------------------------------------------------------------------------------------------------
+  const double vstir = P.compute_value(*xim);
+  C09_TRY(cmp_scalar("value " + kn, vstir, vref, vmag + 3. * vfloor / TOL, TOL));
+
+  // ---- gradient -----------------------------------------------------------------------------------------------------------
+  const Vec gstir = stir_gradient(P, g, *xim);
+  C09_TRY(cmp_vec("gradient " + kn, gstir, gref, gmag, TOL, g));
+
+  // ---- default weights as documented (x voxel size / Euclidean distance) ----------------------------------------------
+  Array<3, float> wstir;
+  if (k.beta != 0 && stir_weights(m, k.kind, wstir))
+    {
+      VF_CHECK(wstir.get_min_index() == -w.hz && wstir.get_max_index() == w.hz && wstir[0].get_min_index() == -w.hy && wstir[0].get_max_index() == w.hy
+                   && wstir[0][0].get_min_index() == -w.hx && wstir[0][0].get_max_index() == w.hx,
+               kn, ": weights index range is z ", wstir.get_min_index(), "..", wstir.get_max_index(), " but expected half widths ", w.hz, ",", w.hy, ",", w.hx,
+               (k.only_2D() ? " (only_2D requested)" : ""));
+      for (int dz = -w.hz; dz <= w.hz; ++dz)
+        for (int dy = -w.hy; dy <= w.hy; ++dy)
+          for (int dx = -w.hx; dx <= w.hx; ++dx)
+            VF_CHECK(std::fabs(double(wstir[dz][dy][dx]) - w.at(dz, dy, dx)) <= TOL_REL * (w.at(dz, dy, dx) + 1e-30), kn, ": weight[", dz, "][", dy, "][", dx,
+                     "] = ", wstir[dz][dy][dx], " but documented value is ", w.at(dz, dy, dx));
+    }
+
+  // ---- all Hessian rows ----------------------------------------------------------------------------------------------------
+  std::vector<Vec> Hs(static_cast<std::size_t>(N));
+  {
+    Vec rref, rmag(static_cast<std::size_t>(N));
+    for (int z = 0; z < g.nz; ++z)
+      for (int y = 0; y < g.ny; ++y)
+        for (int xx = 0; xx < g.nx; ++xx)
+          {
+            const int j = g.idx(z, y, xx);
+            Hs[std::size_t(j)] = stir_row(P, g, *xim, z, y, xx);
+            ref.hess_row(x, z, y, xx, rref);
+            for (int i = 0; i < N; ++i)
+              rmag[std::size_t(i)] = std::fabs(rref[std::size_t(i)]);
+            const std::string msg = cmp_vec("Hessian row " + kn, Hs[std::size_t(j)], rref, rmag, TOL, g);
+            if (!msg.empty())
+              return Result::fail(cat("row of voxel (", g.oz + z, ",", g.oy + y, ",", g.ox + xx, "): ", msg));
+          }
+    stats().count("hessian_rows", N);
+  }
+
+  // ---- Hessian times input (accumulating) ----------------------------------------------------------------------------------
+  Vec hvstir;
+  {
+    const double hm = vmax(hvref);
+    Vec prefill = make_direction(k.dseed + 3, std::size_t(N), 0.5 * hm);
+    hvstir = stir_hess_times(P, g, *xim, v, prefill);
+    Vec mag(hvmag);
+    for (int i = 0; i < N; ++i)
+      mag[std::size_t(i)] += 0.05 * (std::fabs(prefill[std::size_t(i)]) + std::fabs(hvref[std::size_t(i)])); // float rounding of output += result
+    C09_TRY(cmp_vec("Hessian-times-input " + kn, hvstir, hvref, mag, TOL, g));
+    // the same from STIR's own rows
+    Vec hsv(static_cast<std::size_t>(N), 0.), hsm(static_cast<std::size_t>(N), 0.);
+    for (int i = 0; i < N; ++i)
+      for (int j = 0; j < N; ++j)
+        {
+          const double t = Hs[std::size_t(i)][std::size_t(j)] * v[std::size_t(j)];
+          hsv[std::size_t(i)] += t;
+          hsm[std::size_t(i)] += std::fabs(t);
+        }
+    for (int i = 0; i < N; ++i)
+      hsm[std::size_t(i)] += 0.05 * (std::fabs(prefill[std::size_t(i)]) + std::fabs(hvref[std::size_t(i)]));
+    C09_TRY(cmp_vec("Hessian-times-input vs sum of STIR rows " + kn, hvstir, hsv, hsm, TOL, g));
+  }
+
+  // ---- row j == H e_j -------------------------------------------------------------------------------------------------------
+  {
+    const std::vector<int> js = sample_voxels(g, k.dseed + 5, 40);
+    const Vec zero(static_cast<std::size_t>(N), 0.);
+    for (int j : js)
+      {
+        Vec e(static_cast<std::size_t>(N), 0.);
+        e[std::size_t(j)] = 1.;
+        const Vec he = stir_hess_times(P, g, *xim, e, zero);
+        Vec mag(static_cast<std::size_t>(N));
+        for (int i = 0; i < N; ++i)
+          mag[std::size_t(i)] = std::fabs(Hs[std::size_t(j)][std::size_t(i)]);
+        const std::string msg = cmp_vec("row j vs H e_j " + kn, Hs[std::size_t(j)], he, mag, TOL, g);
+        if (!msg.empty())
+          return Result::fail(cat("compute_Hessian row of voxel #", j, " differs from accumulate_Hessian_times_input(unit image): ", msg, " [first=row, 'reference'=H e_j]"));
+      }
+    stats().count("unit_image_products", long(js.size()));
+  }
+
+  // ---- symmetry and positive semi-definiteness of STIR's Hessian ------------------------------------------------------------
+  {
+    double hmax = 0;
+    for (auto& r : Hs)
+      hmax = std::max(hmax, vmax(r));
+    double worst = 0;
+    for (int i = 0; i < N; ++i)
+      for (int j = i + 1; j < N; ++j)
+        {
+          const double a = Hs[std::size_t(i)][std::size_t(j)], b = Hs[std::size_t(j)][std::size_t(i)];
+          if (a == 0. && b == 0.)
+            continue;
+          const double e = std::fabs(a - b) / (std::max(std::fabs(a), std::fabs(b)) + 1e-3 * hmax + 1e-30);
+          worst = std::max(worst, e);
+          VF_CHECK(e <= TOL, kn, ": Hessian not symmetric: H[", i, "][", j, "]=", a, " H[", j, "][", i, "]=", b);
+        }
+    stats().maxi("max rel asymmetry of Hessian " + kn, worst);
+    const Vec ones(static_cast<std::size_t>(N), 1.);
+    for (const Vec* d : { &v, &x, &ones })
+      {
+        double q = 0, qa = 0;
+        for (int i = 0; i < N; ++i)
+          for (int j = 0; j < N; ++j)
+            {
+              const double t = (*d)[std::size_t(i)] * Hs[std::size_t(i)][std::size_t(j)] * (*d)[std::size_t(j)];
+              q += t;
+              qa += std::fabs(t);
+            }
+        stats().maxi("max negative v'Hv / sum|terms| " + kn, qa > 0 ? std::max(0., -q / qa) : 0.);
+        VF_CHECK(q >= -TOL * qa, kn, " declares itself convex but v'Hv = ", q, " < 0 (sum of |terms| ", qa, ")");
+      }
+    // and through accumulate_Hessian_times_input
+    double q = 0, qa = 0;
+    for (int i = 0; i < N; ++i)
+      {
+        q += v[std::size_t(i)] * hvstir[std::size_t(i)];
+        qa += std::fabs(v[std::size_t(i)]) * hvmag[std::size_t(i)];
+      }
+    VF_CHECK(q >= -TOL * qa, kn, " declares itself convex but v'(Hv) = ", q, " < 0 via accumulate_Hessian_times_input (magnitude ", qa, ")");
+  }
+
+  // ---- parabolic surrogate curvature ------------------------------------------------------------------------------------------
+  if (m.ps)
+    {
+      Vec cref;
+      ref.curvature(x, cref);
+      shared_ptr<Vox> out = filled_vox(g, 9.5f);
+      m.ps->parabolic_surrogate_curvature(*out, *xim);
+      C09_TRY(cmp_vec("parabolic surrogate curvature " + kn, from_vox(g, *out), cref, cref, TOL, g));
+    }
+
+  // ---- add_multiplication_with_approximate_Hessian ---------------------------------------------------------------------------
+  {
+    shared_ptr<Vox> out = filled_vox(g, 0.f);
+    shared_ptr<Vox> in = to_vox(g, v);
+    bool threw = false;
+    try
+      {
+        P.add_multiplication_with_approximate_Hessian(*out, *in);
+      }
+    catch (const std::runtime_error&)
+      {
+        threw = true; // RelativeDifferencePrior.cxx:529 "not implemented"; Logcosh: base class error()
+      }
+    if (threw)
+      {
+        stats().cls("approximate Hessian: reported as not implemented");
+        VF_CHECK(k.kind != QUAD, "QuadraticPrior::add_multiplication_with_approximate_Hessian called error()");
+      }
+    else if (k.kind == QUAD)
+      {
+        // QuadraticPrior.h:119 "Call accumulate_Hessian_times_input"; GeneralisedPrior.h:70 "multiplication of the Hessian with a
+        // vector ... assumes that the hessian of the prior is 1 and hence the function quadratic" -> for the quadratic prior = H v.
+        // Finding F5 (work/notes/C09_findings.md): the implementation returns sum_dr w kappa kappa v_{r+dr} instead.
+        if (!excl(5))
+          C09_TRY(cmp_vec("approximate Hessian times input Quadratic", from_vox(g, *out), hvref, hvmag, TOL, g));
+        else
+          {
+            ++stats().excluded_known;
+            // weaker documented facts that hold for any reading: accumulates, linear in beta, nothing for beta == 0
+            if (k.beta == 0)
+              VF_CHECK(vmax(from_vox(g, *out)) == 0., "approximate Hessian with penalisation factor 0 changed the output");
+          }
+      }
+  }
+
+  // ---- linear in the penalisation factor -----------------------------------------------------------------------------------------
+  {
+    Spec s2 = spec;
+    s2.beta = k.beta == 0 ? 1.5f : k.beta * 2.5f;
+    Made m2 = make_prior(s2, xim);
+    const double v2 = m2.p->compute_value(*xim);
+    const Vec g2 = stir_gradient(*m2.p, g, *xim);
+    const Vec zero(static_cast<std::size_t>(N), 0.);
+    const Vec hv2 = stir_hess_times(*m2.p, g, *xim, v, zero);
+    const Vec hv1 = stir_hess_times(P, g, *xim, v, zero);
+    const Vec r2 = stir_row(*m2.p, g, *xim, g.nz / 2, g.ny / 2, g.nx / 2);
+    const Vec& r1 = Hs[std::size_t(g.idx(g.nz / 2, g.ny / 2, g.nx / 2))];
+    const double b1 = double(k.beta), b2 = double(s2.beta);
+    if (k.beta == 0)
+      {
+        VF_CHECK(vstir == 0., kn, ": value with penalisation factor 0 is ", vstir);
+        VF_CHECK(vmax(gstir) == 0., kn, ": gradient with penalisation factor 0 is not zero (output not overwritten?)");
+        VF_CHECK(vmax(hv1) == 0., kn, ": Hessian-times-input with penalisation factor 0 is not zero");
+        VF_CHECK(vmax(r1) == 0., kn, ": Hessian row with penalisation factor 0 is not zero");
+        stats().cls("penalisation factor 0");
+      }
+    else
+      {
+        C09_TRY(cmp_scalar("linearity in beta: value " + kn, v2 * b1, vstir * b2, std::fabs(vstir * b2), TOL_REL));
+        Vec a(static_cast<std::size_t>(N)), b(static_cast<std::size_t>(N)), mg(static_cast<std::size_t>(N));
+        auto lin = [&](const std::string& what, const Vec& q1, const Vec& q2, const Vec* mag) -> std::string {
+          for (int i = 0; i < N; ++i)
+            {
+              a[std::size_t(i)] = q2[std::size_t(i)] * b1;
+              b[std::size_t(i)] = q1[std::size_t(i)] * b2;
+              mg[std::size_t(i)] = (mag ? (*mag)[std::size_t(i)] : std::fabs(q1[std::size_t(i)])) * b2;
+            }
+          return cmp_vec("linearity in beta: " + what + " " + kn, a, b, mg, TOL_REL, g);
+        };
+        C09_TRY(lin("gradient", gstir, g2, &gmag));
+        C09_TRY(lin("Hessian-times-input", hv1, hv2, &hvmag));
+        C09_TRY(lin("Hessian row", r1, r2, nullptr));
+      }
+  }
+
+  // ---- gradient of a uniform image vanishes -----------------------------------------------------------------------------------------
+  {
+    double mean = 0;
+    for (double e : x)
+      mean += e / N;
+    const float cst = float(mean);
+    const shared_ptr<Vox> u = filled_vox(g, cst);
+    const Vec gu = stir_gradient(P, g, *u);
+    // natural unit of the gradient: beta * sum of weights * kappa_max^2 * (Quadratic: image value; RDP: 1; Logcosh: 1/s)
+    double wsum = 0;
+    for (double e : w.w)
+      wsum += std::fabs(e);
+    const double km = kap.empty() ? 1. : vmax(kap);
+    const double unit = double(k.beta) * wsum * km * km * (k.kind == QUAD ? double(cst) : (k.kind == RDP ? 1. : 1. / double(k.scalar)));
+    stats().maxi("max |gradient of uniform image| / natural unit " + kn, unit > 0 ? vmax(gu) / unit : vmax(gu));
+    VF_CHECK(vmax(gu) <= 1e-6 * unit, kn, ": gradient of a uniform image (value ", cst, ") is not zero: max |g| = ", vmax(gu));
+  }
+
+  // ---- padding with a border of kappa = 0 voxels changes nothing ----------------------------------------------------------------
+  if (k.pad[0] + k.pad[1] + k.pad[2] + k.pad[3] + k.pad[4] + k.pad[5] > 0)
+    {
+      const Padded pd = make_padded(k, x, kap, k.pad);
+      const shared_ptr<Vox> pxim = to_vox(pd.g, pd.x);
+      Spec sp = spec;
+      sp.kappa = to_vox(pd.g, pd.kap);
+      Made mp = make_prior(sp, pxim);
+      const double vp = mp.p->compute_value(*pxim);
+      C09_TRY(cmp_scalar("padding: value " + kn, vp, vstir, vmag + 3. * vfloor / TOL, TOL_REL));
+      const Vec gp = stir_gradient(*mp.p, pd.g, *pxim);
+      C09_TRY(border_is_zero("padding: gradient " + kn, pd, gp));
+      C09_TRY(cmp_vec("padding: gradient " + kn, restrict_to(pd, gp), gstir, gmag, TOL_REL, g));
+      // Hessian times input
+      Vec vpad = make_direction(k.dseed + 9, pd.x.size(), 1.);
+      for (std::size_t a = 0; a < pd.map.size(); ++a)
+        vpad[std::size_t(pd.map[a])] = v[a];
+      const Vec zero(pd.x.size(), 0.);
+      const Vec hp = stir_hess_times(*mp.p, pd.g, *pxim, vpad, zero);
+      C09_TRY(border_is_zero("padding: Hessian-times-input " + kn, pd, hp));
+      const Vec zero_s(static_cast<std::size_t>(N), 0.);
+      const Vec hs = stir_hess_times(P, g, *xim, v, zero_s);
+      C09_TRY(cmp_vec("padding: Hessian-times-input " + kn, restrict_to(pd, hp), hs, hvmag, TOL_REL, g));
+      // rows of a few voxels
+      for (int j : sample_voxels(g, k.dseed + 11, 12))
+        {
+          const int xx = j % g.nx, y = (j / g.nx) % g.ny, z = j / (g.nx * g.ny);
+          const Vec rp = stir_row(*mp.p, pd.g, *pxim, z + k.pad[0], y + k.pad[2], xx + k.pad[4]);
+          C09_TRY(border_is_zero("padding: Hessian row " + kn, pd, rp));
+          Vec mag(static_cast<std::size_t>(N));
+          for (int i = 0; i < N; ++i)
+            mag[std::size_t(i)] = std::fabs(Hs[std::size_t(j)][std::size_t(i)]);
+          C09_TRY(cmp_vec("padding: Hessian row " + kn, restrict_to(pd, rp), Hs[std::size_t(j)], mag, TOL_REL, g));
+        }
+      stats().cls("padded with kappa=0 border");
+    }
+
+  // ---- singleton dimensions contribute nothing: same results with the weights restricted to offset 0 in those dimensions ----------
+  if (k.beta != 0 && ((g.nz == 1 && w.hz > 0) || (g.ny == 1 && w.hy > 0) || (g.nx == 1 && w.hx > 0)) && stir_weights(m, k.kind, wstir))
+    {
+      Weights wr;
+      wr.hz = g.nz == 1 ? 0 : w.hz;
+      wr.hy = g.ny == 1 ? 0 : w.hy;
+      wr.hx = g.nx == 1 ? 0 : w.hx;
+      wr.w.assign(std::size_t(wr.size()), 0.);
+      for (int dz = -wr.hz; dz <= wr.hz; ++dz)
+        for (int dy = -wr.hy; dy <= wr.hy; ++dy)
+          for (int dx = -wr.hx; dx <= wr.hx; ++dx)
+            wr.ref(dz, dy, dx) = double(wstir[dz][dy][dx]);
+      Spec sr = spec;
+      sr.user_w = &wr;
+      sr.construct = 0;
+      Made mr = make_prior(sr, xim);
+      C09_TRY(cmp_scalar("singleton: value " + kn, mr.p->compute_value(*xim), vstir, vmag + 3. * vfloor / TOL, TOL_REL));
+      C09_TRY(cmp_vec("singleton: gradient " + kn, stir_gradient(*mr.p, g, *xim), gstir, gmag, TOL_REL, g));
+      const Vec zero(static_cast<std::size_t>(N), 0.);
+      C09_TRY(cmp_vec("singleton: Hessian-times-input " + kn, stir_hess_times(*mr.p, g, *xim, v, zero), stir_hess_times(P, g, *xim, v, zero), hvmag, TOL_REL, g));
+      stats().cls("singleton dimension with wider weights");
+    }
+
+  // ---- midpoint convexity of the value ("smooth convex function") ---------------------------------------------------------------
+  {
+    Cfg kb = k;
+    kb.iseed = k.iseed + 101;
+    kb.imode = 0;
+    const Vec b = make_image(kb);
+    Vec mid(static_cast<std::size_t>(N));
+    for (int i = 0; i < N; ++i)
+      mid[std::size_t(i)] = 0.5 * (x[std::size_t(i)] + b[std::size_t(i)]);
+    const double vb = P.compute_value(*to_vox(g, b)), vm = P.compute_value(*to_vox(g, mid));
+    double mb = 0, fb = 0;
+    ref.value(b, &mb, &fb);
+    const double slack = 10 * TOL * (vmag + mb) + 3. * (vfloor + fb) * 2;
+    stats().maxi("max midpoint convexity violation / (values) " + kn, (vstir + vb) > 0 ? std::max(0., vm - 0.5 * (vstir + vb)) / (vstir + vb) : 0.);
+    VF_CHECK(vm <= 0.5 * (vstir + vb) + slack, kn, " declares itself convex but value(midpoint) = ", vm, " > mean of values ", 0.5 * (vstir + vb));
+  }
+  return Result::pass();
+}
+
+// =======================================================================================================================
+// PLS: no Hessian (GeneralisedPrior.cxx:54-80: the base class error()s) -> value / gradient / scaling / uniform / border clauses.
+Result
+check_pls(const Cfg& k)
+{
+  const Grid& g = k.g;
+  const int N = g.N();
+  const Vec x = make_image(k);
+  const Vec kap = make_kappa(k, g);
+  const Vec anat = make_anatomical(k, x);
+  const shared_ptr<Vox> xim = to_vox(g, x);
+  const shared_ptr<Vox> kim = kap.empty() ? shared_ptr<Vox>() : to_vox(g, kap);
+  const shared_ptr<Vox> aim = to_vox(g, anat);
+  const Spec spec = spec_of(k, nullptr, kim, aim);
+  Made m;
+  try
+    {
+      m = make_prior(spec, xim);
+    }
+  catch (const std::exception& e)
+    {
+      return Result::reject(std::string("prior construction/set_up rejected: ") + e.what());
+    }
+  Prior& P = *m.p;
+
+  PlsRef<double> ref;
+  ref.g = g;
+  ref.only_2D = k.only_2D();
+  ref.kap = kap;
+  ref.anat = anat;
+  ref.eta = k.eta;
+  ref.alpha = k.alpha;
+  ref.beta = double(k.beta);
+
+  double vmag = 0;
+  const double vref = ref.value(x, &vmag);
+  Vec gref, gmag;
+  ref.gradient(x, gref, &gmag);
+  {
+    const Vec d = make_direction(k.dseed ^ 0x5bd1e995u, std::size_t(N), 1.);
+    C09_TRY(anchor_gradient(ref, x, gref, gmag, d, char_length(k, x)));
+  }
+  VF_CHECK(P.is_convex(), "PLS does not declare itself convex");
+
+  const double vstir = P.compute_value(*xim);
+  C09_TRY(cmp_scalar("value PLS", vstir, vref, vmag, TOL_PLS));
+
+  // Findings F3/F4 (work/notes/C09_findings.md): STIR's PLS gradient is the derivative of its value only at voxels that are
+  // strictly inside the image in every active direction, and only for a uniform kappa.  Unless VERIF_NO_EXCLUDE=1 the
+  // comparison is restricted to those voxels (non-uniform kappa is not generated for PLS).
+  std::vector<char> mask(static_cast<std::size_t>(N), 1);
+  bool kappa_uniform = true;
+  for (double e : kap)
+    if (e != kap[0])
+      kappa_uniform = false;
+  long n_masked = 0;
+  const bool ex3 = excl(3), ex4 = excl(4);
+  if (ex3 || ex4)
+    for (int z = 0; z < g.nz; ++z)
+      for (int y = 0; y < g.ny; ++y)
+        for (int xx = 0; xx < g.nx; ++xx)
+          {
+            const bool border = y == 0 || y == g.ny - 1 || xx == 0 || xx == g.nx - 1 || (!k.only_2D() && (z == 0 || z == g.nz - 1));
+            if ((ex3 && border) || (ex4 && !kappa_uniform))
+              {
+                mask[std::size_t(g.idx(z, y, xx))] = 0;
+                ++n_masked;
+              }
+          }
+  stats().count("PLS gradient voxels compared", N - n_masked);
+  stats().count("PLS gradient voxels excluded (known finding)", n_masked);
+  if (n_masked)
+    ++stats().excluded_known;
+  const Vec gstir = stir_gradient(P, g, *xim);
+  // the gradient is a difference of terms |q| <= 1: magnitude per voxel = beta * kappa * (number of terms) is the natural float scale
+  Vec mag(gmag);
+  for (int i = 0; i < N; ++i)
+    mag[std::size_t(i)] += 0.1 * double(k.beta) * (kap.empty() ? 1. : kap[std::size_t(i)]);
+  C09_TRY(cmp_vec("gradient PLS", gstir, gref, mag, TOL_PLS, g, &mask));
+
+  // ---- linear in the penalisation factor --------------------------------------------------------------------------------------------
+  {
+    Spec s2 = spec;
+    s2.beta = k.beta == 0 ? 1.5f : k.beta * 2.5f;
+    Made m2 = make_prior(s2, xim);
+    const double v2 = m2.p->compute_value(*xim);
+    const Vec g2 = stir_gradient(*m2.p, g, *xim);
+    const double b1 = double(k.beta), b2 = double(s2.beta);
+    if (k.beta == 0)
+      {
+        VF_CHECK(vstir == 0., "PLS: value with penalisation factor 0 is ", vstir);
+        VF_CHECK(vmax(gstir) == 0., "PLS: gradient with penalisation factor 0 is not zero (output not overwritten?)");
+        stats().cls("penalisation factor 0");
+      }
+    else
+      {
+        C09_TRY(cmp_scalar("linearity in beta: value PLS", v2 * b1, vstir * b2, std::fabs(vstir * b2), TOL_REL));
+        Vec a(static_cast<std::size_t>(N)), b(static_cast<std::size_t>(N)), mg(static_cast<std::size_t>(N));
+        for (int i = 0; i < N; ++i)
+          {
+            a[std::size_t(i)] = g2[std::size_t(i)] * b1;
+            b[std::size_t(i)] = gstir[std::size_t(i)] * b2;
+            mg[std::size_t(i)] = mag[std::size_t(i)] * b2;
+          }
+        C09_TRY(cmp_vec("linearity in beta: gradient PLS", a, b, mg, TOL_REL, g));
+      }
+  }
+
+  // ---- uniform image -----------------------------------------------------------------------------------------------------------------
+  {
+    double mean = 0;
+    for (double e : x)
+      mean += e / N;
+    const Vec gu = stir_gradient(P, g, *filled_vox(g, float(mean)));
+    const double unit = double(k.beta) * (kap.empty() ? 1. : vmax(kap));
+    stats().maxi("max |gradient of uniform image| / natural unit PLS", unit > 0 ? vmax(gu) / unit : vmax(gu));
+    VF_CHECK(vmax(gu) <= 1e-6 * unit, "PLS: gradient of a uniform image is not zero: max |g| = ", vmax(gu));
+  }
+
+  // ---- no Hessian: must be reported, not silently wrong ---------------------------------------------------------------------------
+  {
+    bool threw = false;
+    try
+      {
+        shared_ptr<Vox> out = filled_vox(g, 0.f);
+        P.compute_Hessian(*out, make_coordinate(g.oz, g.oy, g.ox), *xim);
+      }
+    catch (const std::runtime_error&)
+      {
+        threw = true;
+      }
+    stats().cls(threw ? "PLS compute_Hessian reported as not implemented" : "PLS compute_Hessian returned");
+  }
+
+  // ---- padding on the LOW side with kappa = 0 (kappa multiplies the voxel's own term phi_r; the forward difference of a low-side
+  //      border voxel reaches into the image but is multiplied by kappa_r = 0; high-side padding would change phi of the last plane)
+  if (k.pad[0] + k.pad[2] + k.pad[4] > 0)
+    {
+      int pad[6] = { k.only_2D() ? k.pad[0] : k.pad[0], 0, k.pad[2], 0, k.pad[4], 0 };
+      const Padded pd = make_padded(k, x, kap, pad);
+      Vec apad(pd.x.size());
+      {
+        SplitMix r(k.aseed + 23);
+        for (auto& e : apad)
+          e = double(float(r.real(0., 1.) * k.ascale));
+        for (std::size_t a = 0; a < pd.map.size(); ++a)
+          apad[std::size_t(pd.map[a])] = anat[a];
+      }
+      const shared_ptr<Vox> pxim = to_vox(pd.g, pd.x);
+      Spec sp = spec;
+      sp.kappa = to_vox(pd.g, pd.kap);
+      sp.anat = to_vox(pd.g, apad);
+      Made mp = make_prior(sp, pxim);
+      C09_TRY(cmp_scalar("padding: value PLS", mp.p->compute_value(*pxim), vstir, vmag, TOL_REL));
+      stats().cls("padded with kappa=0 border");
+    }
+
+  // ---- midpoint convexity of the value -------------------------------------------------------------------------------------------------
+  {
+    Cfg kb = k;
+    kb.iseed = k.iseed + 101;
+    kb.imode = 0;
+    const Vec b = make_image(kb);
+    Vec mid(static_cast<std::size_t>(N));
+    for (int i = 0; i < N; ++i)
+      mid[std::size_t(i)] = 0.5 * (x[std::size_t(i)] + b[std::size_t(i)]);
+    const double vb = P.compute_value(*to_vox(g, b)), vm = P.compute_value(*to_vox(g, mid));
+    VF_CHECK(vm <= 0.5 * (vstir + vb) + 10 * TOL_PLS * (vstir + vb), "PLS declares itself convex but value(midpoint) = ", vm, " > mean of values ", 0.5 * (vstir + vb));
+  }
+  return Result::pass();
+}
+
+Result
+check(const json& c)
+{
+  vg::quiet();
+  const Cfg k = decode(c);
+  stats().cls(std::string("prior ") + kind_name(k.kind));
+  stats().cls(k.wmode == 0 ? "weights default 3D" : (k.wmode == 1 ? "weights default only_2D" : cat("weights user ", 2 * k.hz + 1, "x", 2 * k.hy + 1, "x", 2 * k.hx + 1)));
+  stats().cls(k.kmode == 0 ? "kappa none" : (k.kmode == 1 ? "kappa positive" : (k.kmode == 2 ? "kappa with zeros" : "kappa constant")));
+  static const char* im[] = { "image random", "image uniform", "image coarse values with zeros and ties", "image nearly uniform" };
+  stats().cls(im[k.imode & 3]);
+  if (k.g.nz == 1 || k.g.ny == 1 || k.g.nx == 1)
+    stats().cls("singleton dimension");
+  if (k.g.N() == 1)
+    stats().cls("1x1x1");
+  if (k.g.vx != k.g.vy || k.g.vx != k.g.vz)
+    stats().cls("anisotropic voxels");
+  if (k.construct == 1)
+    stats().cls("constructed via parsing/setters");
+  if (k.wmode == 2 && k.wcentre != 0)
+    stats().cls("non-zero centre weight");
+  stats().count("voxels", k.g.N());
+  return k.kind == PLS ? check_pls(k) : check_pairwise(k);
+}
+
+// =======================================================================================================================
+json
+gen(Src& s, int size)
+{
+  json c;
+  const int kind = s.pick(std::vector<int>{ QUAD, RDP, LOGCOSH, QUAD, RDP, LOGCOSH, PLS });
+  c["prior"] = kind;
+  // image sizes 1x1x1 .. 8x9x10 (the property's quantifier), singleton dimensions with probability 1/6 each
+  const int mz = std::max(1, std::min(8, 1 + size / 10)), my = std::max(1, std::min(9, 1 + size / 9)), mx = std::max(1, std::min(10, 1 + size / 8));
+  auto dim = [&](int m) { return (m < 2 || s.chance(1, 6)) ? 1 : int(s.range(2, m)); };
+  const int nz = dim(mz), ny = dim(my), nx = dim(mx);
+  c["nz"] = nz;
+  c["ny"] = ny;
+  c["nx"] = nx;
+  // index offsets: STIR's usual (z from 0, x/y centred) or arbitrary
+  const bool usual = s.coin();
+  c["oz"] = usual ? 0 : int(s.range(-3, 3));
+  c["oy"] = usual ? -(ny / 2) : int(s.range(-6, 4));
+  c["ox"] = usual ? -(nx / 2) : int(s.range(-6, 4));
+  // voxel sizes (any positive spacing is legal for VoxelsOnCartesianGrid)
+  const double vx = s.nice_real(0.5, 5.);
+  const bool iso = s.chance(1, 4);
+  c["vx"] = vx;
+  c["vy"] = iso ? vx : (s.coin() ? vx : s.nice_real(0.5, 5.));
+  c["vz"] = iso ? vx : s.nice_real(0.5, 5.);
+  c["org_z"] = s.coin() ? 0. : s.nice_real(-20., 20.);
+  c["org_y"] = 0.;
+  c["org_x"] = s.coin() ? 0. : s.nice_real(-20., 20.);
+  c["beta"] = s.pick(std::vector<double>{ 1., 1., 0.5, 2.5, 100., 0.01, 0., 7.3 });
+  // weights
+  int wmode = int(s.pick(std::vector<int>{ 0, 0, 1, 2, 2, 2 }));
+  if (kind == PLS && wmode == 2)
+    wmode = s.coin() ? 1 : 0; // PLS has no weights
+  c["wmode"] = wmode;
+  if (wmode == 2)
+    {
+      const int shape = int(s.range(0, 3)); // 3x3x3, 5x5x5, 1x3x3-like mixtures
+      int hz = 1, hy = 1, hx = 1;
+      if (shape == 1)
+        hz = hy = hx = 2;
+      else if (shape >= 2)
+        {
+          hz = int(s.range(0, 2));
+          hy = int(s.range(0, 2));
+          hx = int(s.range(0, 2));
+        }
+      c["hz"] = hz;
+      c["hy"] = hy;
+      c["hx"] = hx;
+      c["wseed"] = s.seed64();
+      c["wzero"] = int(s.range(0, 4));
+      // F1: a non-zero centre weight enters STIR's Hessian although psi(x,x) == 0
+      c["wcentre"] = (!excl(1) && s.chance(1, 4)) ? s.nice_real(0.1, 2.) : 0.;
+    }
+  // construction path: explicit constructor (+set_weights) or parsing / setters
+  int construct = s.chance(1, 3) ? 1 : 0;
+  // F2: the explicit constructors of RDP, Logcosh and PLS ignore only_2D
+  if (excl(2) && wmode == 1 && kind != QUAD)
+    construct = 1;
+  c["construct"] = construct;
+  // kappa
+  int kmode = int(s.pick(std::vector<int>{ 0, 1, 1, 2, 2, 3 }));
+  // F4: PLS multiplies kappa outside the divergence: gradient != derivative of the value for non-uniform kappa
+  if (excl(4) && kind == PLS && (kmode == 1 || kmode == 2))
+    kmode = s.coin() ? 3 : 0;
+  c["kmode"] = kmode;
+  c["kseed"] = s.seed64();
+  c["kconst"] = s.nice_real(0.2, 3.);
+  // image
+  c["imode"] = int(s.pick(std::vector<int>{ 0, 0, 0, 2, 2, 3, 1 }));
+  c["iseed"] = s.seed64();
+  const double iscale = s.pick(std::vector<double>{ 1., 1., 100., 0.01, 10. });
+  c["iscale"] = iscale;
+  // prior parameters. RDP: gamma >= 0, epsilon > 0 (property text); scaled with the image so that all regimes occur
+  c["gamma"] = s.pick(std::vector<double>{ 2., 0., 0.5, 10., 1. });
+  c["eps"] = iscale * s.pick(std::vector<double>{ 1e-3, 1e-2, 0.1, 1., 10. });
+  // Logcosh: scalar > 0; s * (image differences) from << 1 (quadratic regime) to ~ 100 (linear regime, float cosh overflows)
+  c["scalar"] = s.pick(std::vector<double>{ 1., 0.1, 10., 100., 0.01, 3. }) / iscale;
+  // PLS: alpha ~ scale of the emission image, eta ~ scale of the anatomical image (class documentation)
+  const double ascale = s.pick(std::vector<double>{ 1., 50., 0.1 });
+  c["ascale"] = ascale;
+  c["alpha"] = iscale * s.pick(std::vector<double>{ 1., 0.3, 3., 0.1 });
+  c["eta"] = ascale * s.pick(std::vector<double>{ 1., 0.3, 3., 0.1 });
+  c["amode"] = int(s.pick(std::vector<int>{ 0, 0, 1, 2 }));
+  c["aseed"] = s.seed64();
+  c["dseed"] = s.seed64();
+  json pad = json::array();
+  bool any = false;
+  for (int i = 0; i < 6; ++i)
+    {
+      const int p = s.chance(1, 2) ? int(s.range(1, 2)) : 0;
+      any = any || p > 0;
+      pad.push_back(p);
+    }
+  if (!any)
+    pad[4] = 1;
+  if (s.chance(1, 5))
+    pad = json::array({ 0, 0, 0, 0, 0, 0 });
+  c["pad"] = pad;
+  return c;
+}
+
+bool
+nontrivial(const json& c)
+{
+  const int multi = (c["nz"].get<int>() >= 2) + (c["ny"].get<int>() >= 2) + (c["nx"].get<int>() >= 2);
+  const bool aniso = c["vx"].get<double>() != c["vy"].get<double>() || c["vx"].get<double>() != c["vz"].get<double>();
+  return multi >= 2 && (c["kmode"].get<int>() != 0 || c["wmode"].get<int>() == 2 || aniso);
+}
+
+//! corner configurations that always run: every prior on 1x1x1, one line in each direction, the largest image with 5x5x5 weights
+std::vector<json>
+fixed_cases(int)
+{
+  std::vector<json> v;
+  PrngSrc s(20260928);
+  for (int kind = 0; kind < 4; ++kind)
+    for (int shape = 0; shape < 6; ++shape)
+      {
+        json c = gen(s, 100);
+        c["prior"] = kind;
+        static const int dims[6][3] = { { 1, 1, 1 }, { 1, 1, 5 }, { 1, 5, 1 }, { 5, 1, 1 }, { 8, 9, 10 }, { 2, 2, 2 } };
+        c["nz"] = dims[shape][0];
+        c["ny"] = dims[shape][1];
+        c["nx"] = dims[shape][2];
+        if (kind == PLS)
+          {
+            if (c["wmode"].get<int>() == 2)
+              c["wmode"] = 0;
+            if (excl(4) && (c["kmode"].get<int>() == 1 || c["kmode"].get<int>() == 2))
+              c["kmode"] = 3;
+            if (excl(2) && c["wmode"].get<int>() == 1)
+              c["construct"] = 1;
+          }
+        else if (shape == 4)
+          {
+            c["wmode"] = 2;
+            c["hz"] = 2;
+            c["hy"] = 2;
+            c["hx"] = 2;
+            c["wseed"] = 77 + kind;
+            c["wzero"] = 1;
+            c["wcentre"] = 0.;
+            c["construct"] = 0;
+          }
+        if (excl(2) && kind != QUAD && kind != PLS && c["wmode"].get<int>() == 1)
+          c["construct"] = 1;
+        v.push_back(c);
+      }
+  return v;
+}
+
+} // namespace
+
+const Property&
+the_property()
+{
+  static Property p;
+  p.id = "C09";
+  p.gen = gen;
+  p.check = check;
+  p.nontrivial = nontrivial;
+  p.fixed_cases = fixed_cases;
+  p.rule = "image with >= 2 voxels in >= 2 dimensions and (kappa image or user weights or anisotropic voxel sizes)";
+  return p;
 }
